@@ -275,6 +275,18 @@ func (s *ChunkStorage[T]) SetMin(updatedMin int64, saveChunks []ids.ID) error {
 	s.lock.Lock()
 	defer s.lock.Unlock()
 
+	// Refuse a bad save list before touching any state: a call that fails half
+	// way would leave memory ahead of the database.
+	toSave := make(map[ids.ID]struct{}, len(saveChunks))
+	for _, saveChunkID := range saveChunks {
+		_, pending := s.pendingChunkMap[saveChunkID]
+		_, duplicate := toSave[saveChunkID]
+		if !pending || duplicate {
+			return fmt.Errorf("failed to save chunk %s", saveChunkID)
+		}
+		toSave[saveChunkID] = struct{}{}
+	}
+
 	s.minimumExpiry = updatedMin
 	minSlotBytes := make([]byte, consts.Uint64Len)
 	binary.BigEndian.PutUint64(minSlotBytes, uint64(s.minimumExpiry))
